@@ -25,6 +25,10 @@ def load_contracts():
 def verify_one(args):
     """Worker: generate and discharge all obligations of one function (optionally one variant)."""
     qual, timeout_s, repo = args
+    vidx = None
+    if "@" in qual:
+        qual, vidx = qual.split("@")
+        vidx = int(vidx)
     t0 = time.time()
     out = {"function": qual, "obligations": [], "covers": [], "error": None, "undecided_reason": None,
            "assumptions": [], "paths": 0, "file": None, "yield_sites": 0}
@@ -37,6 +41,10 @@ def verify_one(args):
         from pyvc.solve import discharge, check_sat
         reg = load_contracts()
         c = reg.contracts[qual]
+        if vidx is not None:
+            c = reg.variant(c, vidx)
+            out["function"] = f"{qual}[{c.variant_name}]"
+            c.qual_label = out["function"]
         out["file"] = c.file
         src = SourceIndex(reg, repo)
         try:
@@ -53,7 +61,8 @@ def verify_one(args):
         out["lineno"] = fn.lineno
         for o in obls:
             r = discharge(o, timeout_s)
-            r.update({"id": o.oid, "line": o.lineno, "note": o.note})
+            oid = o.oid if vidx is None else o.oid.replace(c.qual + "/", f"{c.qual}[{c.variant_name}]/", 1)
+            r.update({"id": oid, "line": o.lineno, "note": o.note})
             out["obligations"].append(r)
         exit_ok = None
         for cid, hyps in covers:
@@ -84,7 +93,10 @@ def verify(props=None, functions=None, timeout_s=10.0, repo=None, procs=None):
             continue
         if props and not (set(props) & set(c.props)):
             continue
-        quals.append(q)
+        if c.variants:
+            quals.extend(f"{q}@{i}" for i in range(len(c.variants)))
+        else:
+            quals.append(q)
     repo = repo or os.environ.get("PYVC_REPO", "/repo")
     jobs = [(q, timeout_s, repo) for q in quals]
     procs = procs or min(16, max(1, len(jobs)))
